@@ -10,7 +10,7 @@ CONSTANTS
   MaxCodes = 2
   MaxIssued = 3
   ReqRoles <- ReqRolesSmall
-  Kinds = {"status", "restart", "pair.list"}
+  Kinds = {"status"}
   RealTime = FALSE
   MaxSteps = 0
   ExportScripts = FALSE
